@@ -834,7 +834,7 @@ impl Property for C11 {
     }
     fn budget(&self, tier: Tier) -> Budget {
         match tier {
-            Tier::Quick => Budget { cases: 3000, shards: 16, min_len: 40, max_len: 220 },
+            Tier::Quick => Budget { cases: 5000, shards: 16, min_len: 40, max_len: 220 },
             Tier::Thorough => Budget { cases: 80_000, shards: 16, min_len: 40, max_len: 220 },
         }
     }
